@@ -1,4 +1,6 @@
 import WebPkg.Proofs.BSig
+import WebPkg.Proofs.BSigMulti
+import WebPkg.Proofs.BSigRoundTrip
 /-
   C06 — Bundle signatures: covered exchanges verify, any alteration is detected.
   Model: Model/BSig.lean (bundle/signature/{signer,verifier}.go, AddPayloadIntegrity, the addSignature loop of
@@ -44,6 +46,59 @@ theorem honest_verifies (env : VEnv) (hlen : ∀ x, (env.H x).length = 32) (canS
   obtain ⟨sigs', ss, hne, h1, h2, _, h4, h5⟩ :=
     bs_honest_verifies env hlen canSign rs hrs hrs2 b b' certs vurl date expires sig msg t hfirst hadd hkey hsv hvu hvl hok hd hx hlife ht1 ht2 hurls hn
   exact ⟨sigs', ss, hne, h1, h2, h4, h5⟩
+
+
+/-- T2' (any sequence of signers): after `signAll` ran the signers one after the other on a bundle without a signatures
+    section, at any time inside every signer's window the verifier accepts the whole section, trusting signer i's subset
+    under signer i's leaf certificate; every exchange covered by a signer verifies with the ORIGINAL body under that
+    signer's leaf, and exchanges covered by nobody are unsigned. That no URL is covered by two signers is a consequence
+    of `signAll` succeeding (the second `AddPayloadIntegrity` would meet the Digest header), exported as the `Pairwise`
+    conjunct. `bm_SignerOk`: per-signer hypotheses of `honest_verifies` (usable key, validity URL, 0 ≤ dates < 2^62,
+    lifetime ≤ 7 days, t in the window, covered URLs are UTF-8); `hsig`: each signer's signature verifies over the
+    message its `addSignature` produced (`signerMsg_is_signed_message`). -/
+theorem honest_verifies_all (env : VEnv) (hlen : ∀ x, (env.H x).length = 32) (rs : Nat) (hrs : 1 ≤ rs)
+    (hrs2 : rs ≤ 16384) (b b' : Bundle) (signers : List Signer) (t : GoTime.T)
+    (hfirst : b.signatures = none) (hall : signAll env.H rs b signers = some b')
+    (hs : ∀ s ∈ signers, bm_SignerOk env t b s)
+    (hsig : ∀ s ∈ signers, env.sigVerify (bm_leaf s).cert (bm_signerMsg env.H rs b s) s.sig = true)
+    (hn : b.exchanges.length < 2 ^ 64) :
+    (signers ≠ [] → b'.signatures = some (sigsOf b')) ∧
+    b'.version = b.version ∧
+    b'.exchanges = b.exchanges.map (bm_view env.H rs signers) ∧
+    newVerifier env (sigsOf b') t b.version = some (bm_trusted env.H rs b signers) ∧
+    (signers.Pairwise fun s₁ s₂ => ∀ e ∈ b.exchanges, ¬ (s₁.canSign e.url = true ∧ s₂.canSign e.url = true)) ∧
+    ∀ e ∈ b.exchanges,
+      (∀ s ∈ signers, s.canSign e.url = true →
+        verifyExchange env b.version (bm_trusted env.H rs b signers) (piExch env.H rs e) =
+          .verified e.resp.body (bm_leaf s).cert) ∧
+      ((∀ s ∈ signers, s.canSign e.url = false) →
+        verifyExchange env b.version (bm_trusted env.H rs b signers) e = .unsigned) :=
+  bm_honest_verifies_all env hlen rs hrs hrs2 b b' signers t hfirst hall hs hsig hn
+
+
+/-- T2'' (... and this stays true after writing and re-reading the bundle): sign with any sequence of signers, write the
+    signed bundle, read it back: the signatures section is unchanged, the verifier trusts the same subsets, and every
+    original exchange has a counterpart in the bundle read back (and vice versa) that verifies with the original body
+    under its signer's leaf certificate, or is unsigned when no signer covers it. `RDomG` for the signed bundle: what
+    the reader checks and the writer does not (C03.read_write). -/
+theorem honest_verifies_after_roundtrip (env : VEnv) (hlen : ∀ x, (env.H x).length = 32) (rs : Nat) (hrs : 1 ≤ rs)
+    (hrs2 : rs ≤ 16384) (b b' : Bundle) (signers : List Signer) (t : GoTime.T)
+    (hfirst : b.signatures = none) (hall : signAll env.H rs b signers = some b')
+    (hs : ∀ s ∈ signers, bm_SignerOk env t b s)
+    (hsig : ∀ s ∈ signers, env.sigVerify (bm_leaf s).cert (bm_signerMsg env.H rs b s) s.sig = true)
+    (hn : b.exchanges.length < 2 ^ 64)
+    (url : BUrlFacts) (parseOk : Bytes → Bool) (out : Bytes)
+    (hd : RDomG url parseOk b') (hw : write b' = .ok (.ok out)) (hout : out.length < 2 ^ 63) :
+    ∃ b'', read url parseOk out = .ok b'' ∧ b''.version = b.version ∧ b''.signatures = b'.signatures ∧
+      newVerifier env (sigsOf b'') t b''.version = some (bm_trusted env.H rs b signers) ∧
+      (∀ e ∈ b.exchanges, ∃ e'' ∈ b''.exchanges, e''.url = e.url ∧ brs_Verdict env rs b signers b''.version e e'') ∧
+      (∀ e'' ∈ b''.exchanges, ∃ e ∈ b.exchanges, e''.url = e.url ∧ brs_Verdict env rs b signers b''.version e e'') :=
+  brs_honest_roundtrip env hlen rs hrs hrs2 b b' signers t hfirst hall hs hsig hn url parseOk out hd hw hout
+
+/-- the message in `hsig` is exactly the message each signer's `addSignature` returned while `signAll` ran -/
+theorem signerMsg_is_signed_message (H : Bytes → Bytes) (rs : Nat) (b : Bundle) (signers : List Signer)
+    (tr : List (Bundle × Bytes)) (h : bm_signAllTrace H rs b signers = some tr) :
+    tr.map Prod.snd = signers.map (bm_signerMsg H rs b) := bm_trace_msgs H rs b signers tr h
 
 /-- T3 (soundness): a `verified` verdict means: header hash recomputed from the exchange equals the signed one,
     the integrity identifier matches, and the payload is the MI-decoding of the body under the exchange's
